@@ -558,6 +558,20 @@ func TestC08Exhaustive(t *testing.T) {
 			try([]byte{byte(a), byte(b)})
 		}
 	}
+	if pbt.Thorough() {
+		// every string of length 3 as well (16.7 M)
+		var b [3]byte
+		for x := 0; x < 1<<24; x++ {
+			b[0], b[1], b[2] = byte(x>>16), byte(x>>8), byte(x)
+			c := bytesCase{"exhaustive", b[:]}
+			if r := runDifferential(c); r.Fail != "" {
+				path := pbt.SaveFailure(p, bytesCase{"exhaustive", append([]byte(nil), b[:]...)}, r)
+				t.Fatalf("%s on %x [replay=%s]", r.Fail, b, path)
+			}
+		}
+		pbt.AddEvaluations(p, 1<<24)
+		n += 1 << 24
+	}
 	var rec func(prefix []byte, depth int, alpha []byte)
 	rec = func(prefix []byte, depth int, alpha []byte) {
 		if depth == 0 {
